@@ -146,9 +146,18 @@ def run(ctx: Ctx) -> None:
             if len(ctx.samples) < 2:
                 ctx.sample({"preset": preset, "family": "stars", "ratios_and_calls_per_char": table.get("stars")})
         # nesting beyond maxNesting is cut, not recursed into: call count does not grow with extra depth
-        for fam in ("gt-sp", "dash-sp", "nested-brackets", "nested-img"):
+        FAM["mix-q-l"] = lambda n: "> " + "- " * n + "a"
+        FAM["mix-l-q"] = lambda n: "- " + "> " * n + "a"
+        FAM["mix-ql"] = lambda n: "> - " * n + "a"
+        FAM["mix-lq-ol"] = lambda n: "1. > - " * n + "a"
+        for fam in ("gt-sp", "dash-sp", "nested-brackets", "nested-img", "deep-mix", "mix-q-l", "mix-l-q", "mix-ql", "mix-lq-ol", "ol"):
             md = MarkdownIt("commonmark", {"maxNesting": 10})
             f = FAM[fam]
+            # nesting is cut at the limit: no token sits deeper than maxNesting plus the two levels a list adds at once
+            deepest = max((t.level for t in md.parse(f(120))), default=0)
+            ctx.count(("maxLevel", fam), nontrivial=True)
+            if deepest > 10 + 3:
+                ctx.fail("depth-not-cut", f"family {fam}: token level {deepest} with maxNesting=10: nesting beyond the limit is not cut", {"family": fam, "input": f(120)})
             a = calls(md, f(40), lib)
             b = calls(md, f(400), lib)
             ctx.count(("maxNesting", fam), nontrivial=True)
@@ -179,6 +188,14 @@ def run(ctx: Ctx) -> None:
                 ev["bad"] = f"cache holds {len(state.cache)} entries for posMax {state.posMax}"
     md.inline.skipToken = skip
     docs = [FAM[k](60) for k in ("nested-brackets", "link-open", "ref-chain", "emph-link", "nested-img", "gt-sp", "dash-sp", "lazy", "list-items")]
+    # block loops entered at and beyond the nesting limit (a list raises the level by two at once)
+    mdn = MarkdownIt("commonmark", {"maxNesting": 5})
+    monitor.instrument(mdn, mon, record_loops=True, check_tables=False)
+    for k in ("gt-sp", "dash-sp", "deep-mix", "mix-q-l", "mix-l-q", "mix-ql", "ol"):
+        try:
+            mdn.parse(FAM[k](12))
+        except Exception:
+            pass
     docs += list(gens.doc_stream(ctx.rng, 200 if quick else 3000, 6))
     for d in docs:
         try:
@@ -192,6 +209,21 @@ def run(ctx: Ctx) -> None:
     ctx.cov["skipToken_cache_hits"] = ev["hits"]
     if over:
         ctx.mismatch("a real block loop dispatched more chains than its range has lines", {"loop": {k: over[0][k] for k in ("start", "end", "script")}})
+    # replay of the recorded loops on the Lean loop (depth_guard_block is a theorem about that loop: at level >= maxNesting it
+    # dispatches nothing and jumps to the end of its range)
+    from .common import Driver
+    drv = Driver()
+    try:
+        loops = mon.loops[:4000]
+        got = drv.batch([monitor.loop_request(r) for r in loops])
+        for r, g in zip(loops, got):
+            ctx.corr_compared += 1
+            if not g.startswith(f"ok {r['final_line']} "):
+                ctx.mismatch("block loop: implementation and engine model end differently (nesting guard / dispatch)",
+                             {"request": monitor.loop_request(r)[:500], "impl": r["final_line"], "model": g})
+                break
+    finally:
+        drv.close()
     if ev["bad"]:
         ctx.mismatch("skipToken memoisation: " + ev["bad"], {})
     ctx.partial += [
